@@ -896,6 +896,7 @@ def replay_only(ctx, exe, known):
 
 def _convert_job(c):
     from checks import _signal as S
+    S.RUN_TIMEOUT = 150          # "never hangs": a probe that does not come back is a result
     try:
         ratio = float(c["ir"]) / float(c["orr"])
         r = S.tone_job(c, 0.2 * min(1.0, 1.0 / ratio), amp=0.5, nfit=4000)
